@@ -123,6 +123,7 @@ func (x *c15World) battery() map[string]vt.StatusTriple {
 
 var c15Steps = []string{
 	"ok-call", "closed-call", "closed-push", "unknown-route", "bad-body", "panic", "badtype", "presend-outside", "dial-fail", "cut-mid-call",
+	"truncated-reply-mid-call", "garbage-reply-mid-call", "session-age-expires-mid-call",
 	"proxy-call-down", "proxy-push-down", "proxy-call-dies", "proxy-call-ok", "auth-reject", "secure-wrong-key", "overload-reject",
 }
 
@@ -175,6 +176,39 @@ func (x *c15World) step(name string) {
 		}
 		release()
 		vt.WaitClosed(cmd.Done())
+	case "truncated-reply-mid-call", "garbage-reply-mid-call":
+		// the connection ends with a read error other than a clean EOF while a call is pending
+		pair := vt.NewPair()
+		sess, st := x.cli.ServeConn(pair.A, x.proto.Fn)
+		if !st.OK() {
+			return
+		}
+		raw := vt.NewRawPeer(pair, pair.B, x.proto.Fn)
+		cmd := sess.AsyncCall("/remote", &LibArg{Rid: "t"}, new(LibRes), make(chan erpc.CallCmd, 1))
+		raw.WaitFrames(1)
+		if name == "truncated-reply-mid-call" {
+			wrw := &vt.RW{}
+			x.proto.Fn(wrw).Pack(vt.Msg{Seq: 1, Mtype: erpc.TypeReply, Codec: 'j', Body: []byte(`{"Rid":"t","Val":"v"}`)}.Build())
+			f := wrw.Written()
+			raw.SendBytes(f[:len(f)/2])
+		} else {
+			raw.SendBytes([]byte{0xff, 0xff, 0xff, 0xff, 1, 2, 3})
+		}
+		raw.Close()
+		vt.WaitClosed(cmd.Done())
+		vt.WaitClosed(sess.CloseNotify())
+	case "session-age-expires-mid-call":
+		// a read deadline (session age) ends the session with a timeout error while a call is pending
+		p := x.w.Peer(erpc.PeerConfig{DefaultSessionAge: 3 * time.Millisecond})
+		pair := vt.NewPair()
+		sess, st := p.ServeConn(pair.A, x.proto.Fn)
+		if !st.OK() {
+			return
+		}
+		raw := vt.NewRawPeer(pair, pair.B, x.proto.Fn)
+		cmd := sess.AsyncCall("/remote", &LibArg{Rid: "t"}, new(LibRes), make(chan erpc.CallCmd, 1))
+		vt.WaitClosed(cmd.Done())
+		raw.Close()
 	case "proxy-call-down", "proxy-push-down", "proxy-call-dies", "proxy-call-ok":
 		p2b := x.link(x.prox, x.backend)
 		x.cur.Lock()
@@ -230,7 +264,7 @@ func (x *c15World) step(name string) {
 	}
 }
 
-const ruleC15 = "history = 1-12 steps drawn from {successful call, call/push on a closed session, unknown route, undecodable body, handler panic, frame of unsupported type, PreSend/PreCall outside the accept phase, refused dial, connection cut while a call waits, proxied call and proxied push with the backend session closed, proxied call whose backend connection is cut mid-call, proxied call that succeeds, auth rejection, secure plugin with a wrong key, overloader rejection}; oracle (a): code/msg/cause of every predefined status (verif accessor) is identical before the history and after every step; oracle (b): a fixed battery of failing operations on fresh sessions yields identical triples before and after the history; non-trivial = the history contains a step that hands a predefined status by pointer to plugin or user code (proxy with backend down, closed-session call/push); distinct by history"
+const ruleC15 = "history = 1-12 steps drawn from {successful call, call/push on a closed session, unknown route, undecodable body, handler panic, frame of unsupported type, PreSend/PreCall outside the accept phase, refused dial, connection cut while a call waits, connection ending with a non-EOF read error while a call waits (truncated reply, over-limit garbage, session-age read deadline), proxied call and proxied push with the backend session closed, proxied call whose backend connection is cut mid-call, proxied call that succeeds, auth rejection, secure plugin with a wrong key, overloader rejection}; oracle (a): code/msg/cause of every predefined status (verif accessor) is identical before the history and after every step; oracle (b): a fixed battery of failing operations on fresh sessions yields identical triples before and after the history; non-trivial = the history contains a step that hands a predefined status by pointer to plugin or user code (proxy with backend down, closed-session call/push); distinct by history"
 
 func TestC15StatusImmutable(t *testing.T) {
 	rec := vt.NewRec(t, "C15", "immutable", ruleC15)
@@ -242,7 +276,7 @@ func TestC15StatusImmutable(t *testing.T) {
 		steps := rapid.SliceOfN(rapid.SampledFrom(c15Steps), 1, 12).Draw(t, "steps")
 		nt := false
 		for _, s := range steps {
-			if strings.HasPrefix(s, "proxy-") && s != "proxy-call-ok" || strings.HasPrefix(s, "closed-") {
+			if strings.HasPrefix(s, "proxy-") && s != "proxy-call-ok" || strings.HasPrefix(s, "closed-") || strings.HasSuffix(s, "-mid-call") {
 				nt = true
 			}
 			rec.Class("step="+s, 1)
